@@ -14,6 +14,7 @@ from concurrent.futures import ThreadPoolExecutor
 K_PER_BYTE = 100     # instructions per byte of haystack + needle
 K_PER_MATCH = 320   # instructions per match an iterator yields (call overhead)
 K0 = 50000
+WALL_CAP_S = 1200   # per instance; the largest budget (1e8 instructions) takes < 10 s under callgrind
 
 
 def budget(n, m, matches=0):
@@ -23,7 +24,10 @@ def budget(n, m, matches=0):
 def measure(wk, inst, tmpdir, idx):
     out = os.path.join(tmpdir, "cg-%d.out" % idx)
     cmd = ["valgrind", "--tool=callgrind", "--callgrind-out-file=" + out, "--toggle-collect=*measured_call*", "--dump-instr=no", "--collect-jumps=no", wk] + inst
-    p = subprocess.run(cmd, stdout=subprocess.PIPE, stderr=subprocess.PIPE, text=True)
+    try:
+        p = subprocess.run(cmd, stdout=subprocess.PIPE, stderr=subprocess.PIPE, text=True, timeout=WALL_CAP_S)
+    except subprocess.TimeoutExpired:
+        return inst, None, None, "still running under callgrind after %d s (an instance within the declared budget finishes in seconds)" % WALL_CAP_S, -1000
     if p.returncode != 0:
         return inst, None, None, "wk exited %d: %s" % (p.returncode, (p.stderr or "")[-300:]), p.returncode
     ir = None
@@ -62,7 +66,11 @@ def handler(job, tier, seed, workdir, drv):
     for inst, ir, nm, err, rc in results:
         op, fam = inst[0], inst[1]
         if err:
-            if rc < 0 or rc == 101:
+            if rc == -1000:
+                violations.append({"class": "superlinear", "what": "[superlinear] work instance %s: %s" % (" ".join(inst), err),
+                                   "replay_argv": None, "detail": {"class": "superlinear", "instance": inst}})
+                hist["violation/superlinear"] = hist.get("violation/superlinear", 0) + 1
+            elif rc < 0 or rc == 101:
                 violations.append({"class": "crash" if rc < 0 else "panic", "what": "[panic] work instance %s crashed/panicked: %s" % (" ".join(inst), err),
                                    "replay_argv": None, "detail": {"class": "panic", "instance": inst}})
                 hist["violation/panic"] = hist.get("violation/panic", 0) + 1
